@@ -26,6 +26,15 @@ type harnessError struct{ msg string }
 
 type abortNotMine struct{}
 
+// oracleFailure: raised by oracle helpers deep inside a check when what the program printed cannot
+// even be interpreted (e.g. a number column holding garbage). It ends the execution and is recorded as
+// a violation with the given signature - never as a harness error.
+type oracleFailure struct{ sig, msg string }
+
+func ofail(sig, format string, a ...interface{}) {
+	panic(oracleFailure{sig, fmt.Sprintf(format, a...)})
+}
+
 func hfail(format string, a ...interface{}) {
 	panic(harnessError{fmt.Sprintf(format, a...)})
 }
@@ -234,6 +243,10 @@ func (w *Worker) runOne(name string, prefix []int, abortAt int, opt ExploreOpts,
 		if r := recover(); r != nil {
 			if _, ok := r.(abortNotMine); ok {
 				aborted = true
+				return
+			}
+			if of, ok := r.(oracleFailure); ok {
+				x.Violate(w.Prop+"|"+of.sig, of.msg, nil)
 				return
 			}
 			if he, ok := r.(harnessError); ok {
@@ -532,4 +545,12 @@ func (w *Worker) startWatchdog(limit time.Duration) {
 			}
 		}
 	}()
+}
+
+// rethrowSentinel re-panics the explorer's own control-flow panics from a recover() that is meant for the code under test.
+func rethrowSentinel(r interface{}) {
+	switch r.(type) {
+	case abortNotMine, harnessError, oracleFailure:
+		panic(r)
+	}
 }
